@@ -233,6 +233,18 @@ def run_case(ck, case, reqs, pending):
             bref = np.concatenate([b0, [float(n)]])
             zref, _ = sco.nnls(Mref, bref, maxiter=50 * (n + 1))
             sv = np.linalg.svd(Mref, compute_uv=False)
+            # whatever the conditioning: the reported vector (with its multiplier) is a minimiser of the restricted augmented problem —
+            # its objective is not above that of the independent solve (an exactly inverted square system has objective zero)
+            if rec["path"] in ("nnls-fallback", "lsq") or (rec["path"] == "inv" and sv[-1] >= 1e-6 * sv[0]):
+                zfull = np.asarray(z, dtype=float)[:n + 1]
+                if len(zfull) == n + 1:
+                    obj = float(np.sum((Mref @ zfull - bref) ** 2)); obj_ref = float(np.sum((Mref @ zref - bref) ** 2))
+                    tol_obj = (1e-4 if rec["path"] == "lsq" else 1e-8) * (1.0 + float(bref @ bref))
+                    if obj > obj_ref + tol_obj:
+                        ck.fail("every other position holds the solution of the system restricted to the remaining interfaces",
+                                f"objective of the reported vector in the restricted problem (mean of the {n} remaining tensions = 1): {obj:.6g}, "
+                                f"independent solve {obj_ref:.6g} (path {rec['path']})", case)
+                    ck.count("restricted_objective_checked")
             if Mref.shape[0] >= Mref.shape[1] and sv[-1] >= 1e-3 * sv[0] and rec["path"] in ("nnls-fallback", "lsq"):
                 tol = (1e-6 if rec["path"] == "nnls-fallback" else 1e-3) / sv[-1] * (1 + np.max(np.abs(bref)))
                 if np.max(np.abs(np.array(kept) - zref[:n])) > tol:
